@@ -2,7 +2,7 @@
    Property theorems only; every proof is `exact <lemma>`; Print Assumptions under each. *)
 From Coq Require Import List Arith Bool.
 Import ListNotations.
-Require Import Pyrefact.CacheModel Pyrefact.CacheProofs.
+Require Import Pyrefact.CacheModel Pyrefact.CacheProofs Pyrefact.AuxStateModel Pyrefact.AuxStateProofs.
 
 (* T05.1 (general form).  For every key/value type, every computation, EVERY eviction policy that only
    removes entries, every call history h of programs that never change an object they were handed, and
@@ -95,3 +95,57 @@ Example T05_eviction_example :
                [OGet (false, 1); OGet (false, 2); OGet (false, 0); OGet (false, 7)]]
   = [[Some 1; Some 2]; [Some 2; Some 3; Some 1; None]].
 Proof. vm_compute. reflexivity. Qed.
+
+(* ---- round 5: state next to the parse cache that is keyed by object identity (core._REBOUND_NAMES) ---- *)
+
+(* T05.4: a registry of the addresses of cached objects whose entries die with the object (WeakSet: removed
+   when the lru_cache evicts the tree) is invisible.  For every predicate binds, EVERY allocator that never
+   hands out a live address (so: with arbitrary reuse of freed addresses), every capacity >= 1, every
+   history of parses and every source: the call folds exactly when the source does not bind the name, which
+   is its result in the fresh process. *)
+Theorem T05_4_weak_registry_history_independent :
+  forall (binds : nat -> bool) (alloc : list nat -> nat), (forall live, ~ In (alloc live) live) ->
+  forall (c : nat) (h : list nat) (s : nat),
+    fst (aquery binds alloc (S c) true s (arun binds alloc (S c) true h afresh)) = negb (binds s)
+    /\ fst (aquery binds alloc (S c) true s (arun binds alloc (S c) true h afresh))
+       = fst (aquery binds alloc (S c) true s afresh).
+Proof. exact aux_weak_history_independent. Qed.
+Print Assumptions T05_4_weak_registry_history_independent.
+
+(* ... in particular with the lowest-free-address allocator (a free list) used by the refutation below *)
+Theorem T05_4_weak_registry_free_list :
+  forall (binds : nat -> bool) (c : nat) (h : list nat) (s : nat),
+    fst (aquery binds alloc_least (S c) true s (arun binds alloc_least (S c) true h afresh))
+    = fst (aquery binds alloc_least (S c) true s afresh).
+Proof. exact aux_weak_least_independent. Qed.
+Print Assumptions T05_4_weak_registry_free_list.
+
+(* R05.4: the same registry as a plain set of id(node) (entries outlive eviction, addresses are reused) is
+   history dependent at the real capacity: a binder, 100 other parses, then a never-seen source (seed C05-d) *)
+Theorem R05_4_id_registry_refuted :
+  exists (binds : nat -> bool) (h : list nat) (s : nat),
+    fst (aquery binds alloc_least PARSE_MAXSIZE false s (arun binds alloc_least PARSE_MAXSIZE false h afresh))
+    <> fst (aquery binds alloc_least PARSE_MAXSIZE false s afresh).
+Proof. exact aux_id_design_refuted. Qed.
+Print Assumptions R05_4_id_registry_refuted.
+
+(* ... and history independent under the boolean guard "no source of the history binds the name" (every
+   allocator, every capacity): why tests without a binder in their history cannot see the defect *)
+Theorem R05_4_id_registry_partial :
+  forall (binds : nat -> bool) (alloc : list nat -> nat) (cap : nat) (h : list nat) (s : nat),
+    no_binder binds h = true ->
+    fst (aquery binds alloc cap false s (arun binds alloc cap false h afresh)) = negb (binds s)
+    /\ fst (aquery binds alloc cap false s (arun binds alloc cap false h afresh))
+       = fst (aquery binds alloc cap false s afresh).
+Proof. exact aux_id_design_partial. Qed.
+Print Assumptions R05_4_id_registry_partial.
+
+Example R05_4_guard_met : no_binder binds_only_0 (seq 1 150) = true.
+Proof. exact no_binder_example. Qed.
+
+Example R05_4_same_history_both_designs :
+  fst (aquery binds_only_0 alloc_least PARSE_MAXSIZE true refuting_probe
+         (arun binds_only_0 alloc_least PARSE_MAXSIZE true refuting_history afresh)) = true
+  /\ fst (aquery binds_only_0 alloc_least PARSE_MAXSIZE false refuting_probe
+         (arun binds_only_0 alloc_least PARSE_MAXSIZE false refuting_history afresh)) = false.
+Proof. exact refuting_history_weak_ok. Qed.
